@@ -118,6 +118,15 @@ CHECKS = {
              "against a Python set model (values, positions, domains, rendering, equality of differently built equal sets). H4 asserts canonical form inside the library.",
         note="Scoped, as the statement is, to ranges ending at or below 2^64-1. Exhaustive only within the small universe; larger sets are sampled.",
         design="DESIGN.md 5-C16"),
+    "C19": dict(
+        technique="contract-model monitor of the real CLI: exit status / stdout / stderr predicted from library facts (zwdrv) for generated invocations",
+        category="exploration",
+        text="Random invocations of the built dwgrep (flag subsets of -q -s -c -H -h, query via -e / -f / positional, queries with 0/1/many results, compile errors, "
+             "run-time errors after k results, soft errors; 0-3 files of kinds valid/second valid/nonexistent/directory/non-ELF; 0-2 -a/--a arguments yielding 0-3 values) "
+             "are compared with a prediction computed from the library's own answers for the same query on every argument combination: exit status, stdout byte for "
+             "byte (records in row-major order, headers, --- separators, -c counts), required/forbidden driver diagnostics on stderr.",
+        note="Records are predicted for integer/string results only; the -c line of a combination that raised is not judged.",
+        design="DESIGN.md 5-C19"),
     "C20": dict(
         technique="round-trip monitors: header-derived constant values, rendering read back by the library, alias selection equality, CLI output re-parsed",
         category="exploration",
